@@ -34,7 +34,10 @@ def init_ops(cfg):
     ops = [("write", d, "anchor", 700, 0) for d in cfg.disknames]
     ops += [("write", "d1", "a", 2500, 0), ("write", "d1", "sp ace", 1, 0), ("write", "d1", "dir/co:lon", 1024, 0),
             ("write", "d1", "nl\nx", 1023, 0), ("symlink", "d1", "ln", "a"), ("hardlink", "d1", "hl", "a"),
-            ("mkdir", "d1", "ed")]
+            ("mkdir", "d1", "ed"),
+            # twins: same size, same second, different sub-second part (two different time-stamps)
+            ("writeat", "d1", "tw/x", 1500, 0, (labmod.T0 + 5000) * 10**9 + 111111111),
+            ("writeat", "d1", "tw/y", 1500, 1, (labmod.T0 + 5000) * 10**9 + 222222222)]
     if cfg.ndisks >= 2:
         ops += [("write", "d2", "b/c", 1025, 0), ("write", "d2", "back\\sl", 5000, 0), ("write", "d2", ODD, 0, 0),
                 ("mkdir", "d2", "e1/e2"), ("symlink", "d2", "b/abs", "/nonexistent/target")]
@@ -108,6 +111,13 @@ def fault_menu(cfg, c, tier):
             menu.append(("file", d.name.decode(), f.sub, "delete"))
             if f.size > 1:
                 menu.append(("file", d.name.decode(), f.sub, "truncate"))
+    # one recorded file moved over another one of the same size on the same disk (the target now has the other's inode and bytes,
+    # the source is missing): damage confined to one disk
+    for d in c.disks.values():
+        for x in d.files:
+            for y in d.files:
+                if x is not y and x.size == y.size and x.size > 0 and x.inode != y.inode:
+                    menu.append(("file", d.name.decode(), (y.sub, x.sub), "mv-over"))
     for d in c.disks.values():
         for k, sub, to in d.links:
             menu.append(("file", d.name.decode(), sub, "delete"))
@@ -150,6 +160,10 @@ def apply_fault(L, c, spec):
                     F.damage_parity_block(L, c, x, pos, "whole")
     elif spec[0] == "file":
         _, d, sub, how = spec
+        if how == "mv-over":
+            enc = lambda q: q if isinstance(q, bytes) else q.encode(errors="surrogateescape")
+            os.replace(os.path.join(L.p(d).encode(), enc(sub[0])), os.path.join(L.p(d).encode(), enc(sub[1])))
+            return
         fp = os.path.join(L.p(d).encode(), sub if isinstance(sub, bytes) else sub.encode(errors="surrogateescape"))
         if how == "delete":
             os.unlink(fp)
@@ -352,6 +366,8 @@ def replay(r):
                 spec = (spec[0], [tuple(x) for x in spec[1]], spec[2])
             if spec[0] == "file" and isinstance(spec[2], str) and spec[2].startswith("hex:"):
                 spec = (spec[0], spec[1], bytes.fromhex(spec[2][4:]), spec[3])
+            if spec[0] == "file" and isinstance(spec[2], list):
+                spec = (spec[0], spec[1], tuple(bytes.fromhex(q[4:]) if isinstance(q, str) and q.startswith("hex:") else q for q in spec[2]), spec[3])
             apply_fault(L, c, tuple(spec))
             res = L.run("fix")
             v = recovery_oracle(L, want, c, res, "replay")
